@@ -8,5 +8,117 @@ pub fn run(ctx: &Ctx) -> Report {
     if ctx.want("direct") {
         super::c13::run_c14_direct(ctx, &mut rep);
     }
+    if ctx.want("wire") {
+        run_wire(ctx, &mut rep);
+    }
     rep
+}
+
+// ------------------------------------------------------------------------------------------------
+// wire part: real connection tasks, real rates, virtual time
+
+use crate::checks::c02::{addr, peer_id};
+use crate::checks::c09::{fuzz_leecher, FuzzCfg};
+use crate::sim::peers::{seeder, SeederCfg};
+use crate::sim::{disk_never, fmt_ev, run_sim, Entry, EvKind, PeerSpec, SimCfg};
+use crate::torrent::gen_sim_torrent;
+use crate::util::{hash64, panic_site, Rng};
+use crate::wire::Msg;
+use serde_json::json;
+use std::collections::HashMap;
+use std::rc::Rc;
+
+pub fn run_wire(ctx: &Ctx, rep: &mut Report) {
+    rep.need("wire_connections_checked", 200);
+    rep.need("wire_rotations_carried_out", 50);
+    let mut r = ctx.rng("c14-wire");
+    let n = ctx.count(320, 8_000);
+    for k in 0..n {
+        let seed = r.next();
+        let mut sr = Rng::new(seed);
+        let torrent = Rc::new(gen_sim_torrent(&mut sr, 6, false));
+        let np = torrent.n();
+        let mut peers = vec![];
+        let mut s = SeederCfg::honest(peer_id(0), vec![true; np]);
+        s.unchoke_after_ms = Some(0);
+        s.idle_close_ms = 500_000;
+        let s2 = s.clone();
+        peers.push(PeerSpec { addr: addr(0), id: peer_id(0), entry: Entry::Dialled { from_announce: 0 }, make: Box::new(move |nth| if nth > 1 { None } else { Some(seeder(s2.clone())) }), chunk: 0, pipe: 1 << 20 });
+        let n_dial = sr.range(8, 10) as usize; // the manager dials at most 11 candidates at once (seeder included)
+        let n_in = sr.range(2, 4) as usize;
+        let dur = sr.range(45_000, 100_000);
+        let mut desc_peers = vec![];
+        for j in 0..n_dial + n_in {
+            let kk = 1 + j;
+            let incoming = j >= n_dial;
+            let c = FuzzCfg { id: peer_id(kk), incoming, start_ms: sr.range(100, 3000), end_ms: dur + 50_000, pace_ms: match sr.below(4) { 0 => (10, 100), 1 => (100, 800), 2 => (500, 3000), _ => (2000, 9000) }, fuzz: 0, ignore_choke: 0, sulk: *sr.pick(&[0u64, 0, 0, 10]), have: vec![false; np] };
+            desc_peers.push(json!({"addr": addr(kk), "incoming": incoming, "pace_ms": [c.pace_ms.0, c.pace_ms.1], "sulk_permille": c.sulk}));
+            let c2 = c.clone();
+            peers.push(PeerSpec { addr: addr(kk), id: peer_id(kk), entry: if incoming { Entry::Incoming { at_ms: sr.range(0, 90) } /* admitted only while fewer than 4 uninterested peers exist, i.e. before the dials */ } else { Entry::Dialled { from_announce: 0 } }, make: Box::new(move |nth| if nth > 1 { None } else { Some(fuzz_leecher(c2.clone())) }), chunk: 0, pipe: 1 << 20 });
+        }
+        let desc = json!({"seed": seed, "pieces": np, "virtual_ms": dur, "downloaders": desc_peers});
+        let cfg = SimCfg { torrent, peers, tracker: vec![], failpoints: if sr.chance(1, 3) { Some(sr.next()) } else { None }, max_virtual_ms: dur, stop_on_extract: false, linger_ms: 0, disk_on: disk_never, seed, tracker_fn: None, driver: None };
+        rep.evaluations += 1;
+        let o = run_sim(cfg, &ctx.scratch, 180);
+        if o.watchdog { rep.inconclusive(format!("watchdog (scenario seed {})", seed)); continue; }
+        if let Some(p) = o.panics.first() { rep.inconclusive(format!("a task panicked ({}): {}", panic_site(p), p)); continue; }
+        rep.distinct(&hash64(&desc.to_string()));
+        let mut viol: Option<(String, String, u64)> = None;
+        // every manager state: slot bounds; after carried-out rotations: policy
+        for (e, kind, s) in o.mgr() {
+            let regular = s.peers.iter().filter(|p| !p.am_choked && !p.optimistic_unchoke).count();
+            let optimistic = s.peers.iter().filter(|p| !p.am_choked && p.optimistic_unchoke).count();
+            rep.max("wire_unchoked_at_once", (regular + optimistic) as u64);
+            if regular > 10 { viol = Some(("C14:more-than-10-regular-unchoked".into(), format!("{} regular slots in use after {} {}", regular, kind, e.addr), e.seq)); break; }
+            if optimistic > 1 { viol = Some(("C14:more-than-1-optimistic".into(), format!("{} optimistic unchokes after {} {}", optimistic, kind, e.addr), e.seq)); break; }
+            if kind == "Rotation" && !s.peers.is_empty() && s.peers.iter().all(|p| p.download_rate.is_some() && p.uploaded_rate.is_some()) {
+                rep.count("wire_rotations_carried_out", 1);
+                let seeding = s.statuses.iter().all(|x| *x == rdest::verif::Status::Have);
+                let rate = |p: &rdest::verif::PeerSnap| if seeding { p.download_rate.unwrap() } else { p.uploaded_rate.unwrap() };
+                if let Some(p) = s.peers.iter().find(|p| !p.am_choked && !p.interested) { viol = Some(("C14:uninterested-peer-left-unchoked".into(), format!("{} unchoked but not interested after the rotation at t={} ms", p.addr, e.ms), e.seq)); break; }
+                if let Some(ms) = s.peers.iter().filter(|p| !p.am_choked && !p.optimistic_unchoke).map(|p| rate(p)).min() {
+                    if let Some(p) = s.peers.iter().find(|p| p.am_choked && p.interested && rate(p) > ms) { viol = Some(("C14:better-interested-peer-left-choked".into(), format!("{} (rate {}) choked while a slot holder has rate {} after the rotation at t={} ms", p.addr, rate(p), ms, e.ms), e.seq)); break; }
+                }
+            }
+        }
+        // per connection: Choke/Unchoke frames alternate from "choked"; at the end their fold equals the manager's view
+        if viol.is_none() {
+            let last = o.final_snapshot.as_ref();
+            for (a, conn) in o.conns() {
+                let mut choked = true;
+                let mut frames = 0;
+                let mut last_frame_ms = 0;
+                for (e, m) in o.client_msgs(&a, conn) {
+                    match m {
+                        Msg::Choke => { frames += 1; last_frame_ms = e.ms; if choked { viol = Some(("C14:choke-messages-do-not-alternate".into(), format!("Choke written to {} which is already choked", a), e.seq)); break; } choked = true; }
+                        Msg::Unchoke => { frames += 1; last_frame_ms = e.ms; if !choked { viol = Some(("C14:choke-messages-do-not-alternate".into(), format!("Unchoke written to {} which is already unchoked", a), e.seq)); break; } choked = false; }
+                        _ => (),
+                    }
+                }
+                if viol.is_some() { break; }
+                rep.count("wire_connections_checked", 1);
+                rep.count("wire_choke_state_frames", frames);
+                // quiescent agreement: the last rotation was >= 1 s before the end, connection still open
+                if let Some(p) = last.and_then(|s| s.peers.iter().find(|p| p.addr == a)) {
+                    let last_rotation = o.mgr().filter(|(_, k, _)| *k == "Rotation").map(|(e, _, _)| e.ms).last().unwrap_or(0);
+                    if last_rotation + 1_000 < o.end_ms && last_frame_ms + 1_000 < o.end_ms && o.events.iter().filter(|e| e.addr == a && matches!(&e.kind, EvKind::Mgr { kind, .. } if *kind == "RecvBitfield")).all(|e| e.ms + 1_000 < o.end_ms) {
+                        rep.count("wire_final_agreements_checked", 1);
+                        if p.am_choked != choked {
+                            viol = Some(("C14:messages-disagree-with-state".into(), format!("{}: frames written say choked={}, the manager says {} at the quiescent end", a, choked, p.am_choked), u64::MAX));
+                            break;
+                        }
+                    }
+                }
+            }
+        }
+        match viol {
+            None => { if k % 60 == 0 { rep.sample(json!({"wire_scenario": desc, "rotations": o.mgr().filter(|(_, k, _)| *k == "Rotation").count()})); } }
+            Some((sig, what, at)) => {
+                let v: Vec<String> = o.events.iter().filter(|e| e.seq <= at.saturating_add(1)).filter(|e| matches!(&e.kind, EvKind::Send { msg: Msg::Choke | Msg::Unchoke, .. }) || matches!(&e.kind, EvKind::Mgr { kind, .. } if *kind == "Rotation" || *kind == "RecvBitfield" || *kind == "RecvInterested" || *kind == "RecvNotInterested")).map(fmt_ev).collect();
+                let start = v.len().saturating_sub(16);
+                rep.violation(&sig, what, json!({"wire_scenario": desc, "trace": v[start..].to_vec()}))
+            }
+        }
+    }
+    let _ = HashMap::<u8, u8>::new();
 }
